@@ -5,5 +5,6 @@ ASSUME Emit
 ASSUME TableConsistent
 ASSUME EmitEnums
 ASSUME EmitRefs
+ASSUME EmitBig
 ASSUME PrintT("UNIVERSE " \o ToString(Cardinality(Universe)) \o " generated " \o ToString(Cardinality(Generated)))
 =============================================================================
